@@ -224,6 +224,18 @@ def run_check(pid, tier, seed, replay=None):
         print("HARNESS-ERROR property=%s nothing was explored" % pid)
         return 2
     if distinct:
+        # replay the first violation from its file in a fresh interpreter before trusting it: the same case must fail again
+        if os.environ.get("VMC_NO_REPLAY_CONFIRM") != "1":
+            p0 = _replay_file(pid, distinct[0])
+            try:
+                rp = subprocess.run([str(VERIF / "check"), pid, "--replay", str(p0)], capture_output=True, text=True, timeout=900,
+                                    env=dict(os.environ, VMC_BOOTSTRAPPED="0", VMC_NO_REPLAY_CONFIRM="1"))
+                if rp.returncode == 0:
+                    print("HARNESS-ERROR property=%s violation %s did not reproduce when replayed from %s (nondeterminism the harness does not own)" % (pid, distinct[0]["key"], p0))
+                    return 2
+                print("replay of the first violation reproduced it (exit %d)" % rp.returncode)
+            except subprocess.TimeoutExpired:
+                print("replay confirmation timed out; reporting unconfirmed")
         for v in distinct[:10]:
             p = _replay_file(pid, v)
             print("  %s :: %s" % (v["key"], v["msg"][:400]))
